@@ -124,6 +124,12 @@ MUTATIONS = {
         ('decode', 'tonic/src/codec/decode.rs', r'self\.inner\.state = State::Error\(None\);\s*return Poll::Ready\(Some\(Err\(status\)\)\);\s*\}\s*\}\s*\n\s*match ready!', 'return Poll::Ready(Some(Err(status)));\n                }\n            }\n\n            match ready!', 'decode error does not enter the error state'),
     ],
     'C08': [
+        ('metadata', 'tonic/src/metadata/encoding.rs', r'\.eq_ignore_ascii_case\(b"-bin"\)', '.eq_ignore_ascii_case(b"_bin")', 'binary keys are told apart by another suffix'),
+        ('metadata', 'tonic/src/metadata/encoding.rs', r'key\.len\(\) >= 4 && key\[key\.len\(\) - 4\.\.\]', 'key.len() >= 3 && key[key.len() - 4..]', 'the suffix test of a three-byte key indexes before the start'),
+        ('metadata', 'tonic/src/metadata/map.rs', r"-> OccupiedEntry<'a, VE> \{\n        OccupiedEntry \{\n            inner: self\.inner\.insert_entry", "-> OccupiedEntry<'a, Ascii> {\n        OccupiedEntry {\n            inner: self.inner.insert_entry", 'insert_entry hands out an ASCII handle whatever the encoding'),
+        ('metadata', 'tonic/src/metadata/map.rs', r'if !VE::is_valid_key\(self\) \{\n                return Err\(InvalidMetadataKey::new\(\)\);\n            \}\n\n            let key = http::header::HeaderName::from_bytes\(self\.as_bytes\(\)\)\n                \.map_err\(\|_\| InvalidMetadataKey::new\(\)\)\?;\n            let entry', 'if false {\n                return Err(InvalidMetadataKey::new());\n            }\n\n            let key = http::header::HeaderName::from_bytes(self.as_bytes())\n                .map_err(|_| InvalidMetadataKey::new())?;\n            let entry', 'entry(&str) hands out a handle on a key of the other side'),
+        ('metadata', 'tonic/src/metadata/map.rs', r'pub fn append\(&mut self, value: MetadataValue<VE>\) \{\n        self\.inner\.append\(value\.inner\)', 'pub fn append(&mut self, value: MetadataValue<VE>) {\n        self.inner.insert(value.inner);', 'appending through an entry replaces the values already there'),
+        ('metadata', 'tonic/src/metadata/map.rs', r'MetadataValue::unchecked_from_mut_header_value_ref\(self\.inner\.insert\(value\.inner\)\)', 'MetadataValue::unchecked_from_mut_header_value_ref(self.inner.insert(HeaderValue::from_static("")))', 'a vacant entry writes an empty value instead of the given one'),
         ('metadata', 'tonic/src/metadata/map.rs', r'(impl<\'a> Iterator for ValuesMut<\'a> \{[\s\S]*?)ValueRefMut::Ascii\(MetadataValue::unchecked_from_mut_header_value_ref\(value\)\)\n            \} else \{\n                ValueRefMut::Binary', r'\1ValueRefMut::Binary(MetadataValue::unchecked_from_mut_header_value_ref(value))\n            } else {\n                ValueRefMut::Ascii', 'values_mut presents every value on the wrong side'),
         ('metadata', 'tonic/src/metadata/map.rs', r'(pub fn get_all_bin<K>[\s\S]*?)inner: key\.get_all\(self\),', r'\1inner: None,', 'get_all_bin never finds anything'),
         ('metadata', 'tonic/src/metadata/map.rs', r'Some\(map\.headers\.get_all\(self\.inner\)\)', 'Some(map.headers.get_all("te"))', 'get_all of an owned key reads another header'),
@@ -134,7 +140,6 @@ MUTATIONS = {
         ('metadata', 'tonic/src/metadata/map.rs', r'self\.headers\.extend\(other\.headers\);', 'self.headers = other.headers;', 'merge drops the existing entries'),
         ('metadata', 'tonic/src/metadata/encoding.rs', r'crate::util::base64::STANDARD_NO_PAD\.encode\(value\);', 'crate::util::base64::STANDARD_NO_PAD.encode(&b"x"[..]);', 'binary value replaced before encoding'),
         ('metadata', 'tonic/src/metadata/map.rs', r'HeaderName::from_static\("grpc-message-type"\),', 'HeaderName::from_static("grpc-message-typo"),', 'a reserved name misspelt in the table'),
-        ('metadata', 'tonic/src/metadata/encoding.rs', r'key\.ends_with\("-bin"\)', 'key.ends_with("bin")', 'binary key suffix'),
     ],
     'C09': [
         ('timeout', 'tonic/src/transport/service/grpc_timeout.rs', r'(pub\(crate\) fn new\(inner: S, server_timeout: Option<Duration>\) -> Self \{\s*Self \{\s*inner,\s*)server_timeout,', r'\1server_timeout: None,', 'the timeout layer forgets the configured timeout'),
